@@ -1,671 +1,28 @@
 import SE.Proofs.Template
 /-
-C11, glob side: on templates that satisfy `SafeSegs` the `NewTemplateFormatter` / `Format` pair
-(reference regex repaired: the name class is `[a-zA-Z0-9_]`; `%` escaped and the references
-substituted in ONE left-to-right pass since b74fba2) computes `expandSpec`.
+C11, glob side: `NewTemplateFormatter` / `Format` (`compileTemplate` / `Formatter.format`) compute the
+documented expansion `expandSpec` — for EVERY template (since the repair a7bcc3e the formatter has
+`regexp.Expand`'s reference syntax; before, this was provable only under the guard `SafeTemplate`).
 
-Structure of the proof (tmpl = flatSegs segs):
-  A. `findRefs` finds exactly the references of `segs`              (`findRefs_flat`)
-  B. `%`-escaping leaves the references alone (`refMatchAt_escapePct`, `findRefs_escapePct`), and the
-     single pass over the escaped template yields the escaped literals with `%s` at the usable
-     references, nothing at the others, and the indexes in order   (`substRefs_flat`)
-  C. `Sprintf` on that format string un-escapes the literals and fills the captures in
-                                                                     (`sprintfS_escapePct`, `sprintf_fmtOf`)
-  D. `expandSpec` on `flatSegs segs` yields the same bytes           (`expandSpec_flat`, `expected_eq_specOut`)
-  E. for EVERY template (no guard) the format string stays inside the modelled `Sprintf` fragment
-                                                                     (`substRefs_fmtOk`, `compileTemplate_format_isSome`)
+The formatter escapes `%`, scans the escaped template once (`substRefs`) and leaves the rest to
+`Sprintf`; the specification scans the template itself. The proof is a parallel induction over the two
+scans:
+  * `extract` does not see the escaping (`rxExtractU_escapePct`, SE/Proofs/NameRune.lean), so both scans
+    make the same case distinction at every `$` (`$$`, unmodelled / malformed / well-formed reference,
+    number or name);
+  * where the specification copies a byte the formatter copies it into the format string — `%` doubled —
+    and `Sprintf` gives it back (`agrees_plain`, `agrees_pct`); where the specification puts a capture
+    the formatter puts `%s` and records the index, and `Sprintf` puts the capture (`agrees_ref`);
+    references to captures the rule does not have (`idx > captureCount`) vanish on the formatter's side
+    and must be empty on the specification's side: this is the only hypothesis, `hrel`;
+  * the flag "a reference or `$$` was seen" only chooses between `Sprintf` and returning the template as
+    it is: when nothing was seen the specification returns the template too (second half of `Agrees`).
+Fuels: the formatter's scan runs on the escaped template, the specification's on the template; the
+induction is stated for arbitrary sufficient fuels (`substRefs_agrees`).
 -/
 namespace SE
 
-/-! ### bytes -/
-
-theorem digit_isRefByte (d : UInt8) (h : isDigitB d = true) : isRefByte d = true := by
-  simp only [isDigitB, Bool.and_eq_true, decide_eq_true_eq] at h
-  simp [isRefByte, isWordByte, h.1, h.2]
-
-theorem digit_isWordByte (d : UInt8) (h : isDigitB d = true) : isWordByte d = true := by
-  simp only [isDigitB, Bool.and_eq_true, decide_eq_true_eq] at h
-  simp [isWordByte, h.1, h.2]
-
-theorem digit_ne_dollar (d : UInt8) (h : isDigitB d = true) : d ≠ cDollar := by
-  intro e; subst e; revert h; decide
-
-theorem digit_ne_lbrace (d : UInt8) (h : isDigitB d = true) : d ≠ cLBrace := by
-  intro e; subst e; revert h; decide
-
-theorem word_isRefByte (d : UInt8) (h : isWordByte d = true) : isRefByte d = true := by
-  simpa [isRefByte] using h
-
-theorem word_ne_dollar (d : UInt8) (h : isWordByte d = true) : d ≠ cDollar := by
-  intro e; subst e; revert h; decide
-
-theorem word_ne_lbrace (d : UInt8) (h : isWordByte d = true) : d ≠ cLBrace := by
-  intro e; subst e; revert h; decide
-
-theorem not_ref_not_word (c : UInt8) (h : isRefByte c = false) : isWordByte c = false := h
-
-theorem rxNum_digits (ds : Bytes) (h : (rxNum ds).isSome = true) : ds.all isDigitB = true := by
-  unfold rxNum at h
-  split at h
-  · rename_i hc; simp only [Bool.and_eq_true] at hc; exact hc.1.1
-  · cases h
-
-theorem rxNum_atoi (ds : Bytes) (hne : ds ≠ []) (k : Nat) (h : rxNum ds = some k) : atoiDigits ds = some k := by
-  have hd := rxNum_digits ds (by rw [h]; rfl)
-  unfold rxNum at h
-  split at h
-  · simp only [Option.some.injEq] at h
-    unfold atoiDigits
-    have h1 : ds.all (fun b => decide (48 ≤ b) && decide (b ≤ 57)) = true := hd
-    have h2 : ds.isEmpty = false := by cases ds <;> simp_all
-    simp [h1, h2, h]
-  · cases h
-
-/-! ### segments -/
-
-def refTail (b : Bool) (ds : Bytes) : Bytes := if b then cLBrace :: (ds ++ [cRBrace]) else ds
-
-theorem refText_cons (b : Bool) (ds : Bytes) : refText b ds = cDollar :: refTail b ds := by
-  unfold refText refTail; cases b <;> rfl
-
-theorem dollar_not_mem_digits (ds : Bytes) (hd : ds.all isWordByte = true) : cDollar ∉ ds := by
-  intro hm
-  have := List.all_eq_true.mp hd _ hm
-  revert this; decide
-
-theorem dollar_not_mem_refTail (b : Bool) (ds : Bytes) (hd : ds.all isWordByte = true) : cDollar ∉ refTail b ds := by
-  have := dollar_not_mem_digits ds hd
-  unfold refTail
-  cases b
-  · simpa using this
-  · simp only [if_true, List.mem_cons, List.mem_append, List.not_mem_nil, or_false, not_or]
-    exact ⟨by decide, this, by decide⟩
-
-
-def refsOf : List Seg → List (Bytes × Bytes)
-  | [] => []
-  | .lit _ :: segs => refsOf segs
-  | .ref b ds :: segs => (refText b ds, ds) :: refsOf segs
-
-
-/-- the facts `segOk` gives about a reference -/
-theorem segOk_ref (b : Bool) (ds : Bytes) (h : segOk (.ref b ds) = true) :
-    ds ≠ [] ∧ ds.all isWordByte = true ∧
-      ((∃ k, rxNum ds = some k) ∨ (rxNum ds = none ∧ atoiDigits ds = none)) := by
-  simp only [segOk, Bool.and_eq_true, Bool.or_eq_true, Bool.not_eq_true'] at h
-  refine ⟨by intro e; simp [e] at h, h.1.2, ?_⟩
-  cases hk : rxNum ds with
-  | some k => exact Or.inl ⟨k, rfl⟩
-  | none =>
-    right
-    refine ⟨rfl, ?_⟩
-    have hnd : ds.all isDigitB = false := by
-      rcases h.2 with h2 | h2
-      · rw [hk] at h2; cases h2
-      · exact h2
-    unfold atoiDigits
-    have h1 : ds.all (fun b => decide (48 ≤ b) && decide (b ≤ 57)) = false := hnd
-    simp [h1]
-
-
-theorem segOk_lit (l : Bytes) (h : segOk (.lit l) = true) : cDollar ∉ l := by
-  simp only [segOk, Bool.not_eq_true', List.contains_eq_mem, decide_eq_false_iff_not] at h
-  exact h
-
-
-/-! ### A. `findRefs` on a segmented template -/
-
-theorem findRefs_plain : ∀ (l : Bytes) (fuel : Nat) (rest : Bytes), cDollar ∉ l → l.length ≤ fuel →
-    findRefs fuel (l ++ rest) = findRefs (fuel - l.length) rest := by
-  intro l
-  induction l with
-  | nil => intro fuel rest _ _; simp
-  | cons b l ih =>
-    intro fuel rest hd hf
-    simp only [List.mem_cons, not_or] at hd
-    cases fuel with
-    | zero => simp at hf
-    | succ fuel =>
-      have hb : (b == cDollar) = false := by
-        cases hbb : (b == cDollar) with
-        | false => rfl
-        | true => exfalso; apply hd.1; simp at hbb; exact hbb.symm
-      simp only [List.cons_append, findRefs, hb, Bool.false_eq_true, if_false, List.length_cons]
-      rw [ih fuel rest hd.2 (by simpa using hf)]
-      congr 1; omega
-
-/-- what may follow a bare reference: the end, or a byte outside `[a-zA-Z0-9_}]` (`$` is fine) -/
-def tailOk (b : Bool) (R : Bytes) : Prop :=
-  b = false → match R with
-    | [] => True
-    | c :: _ => isWordByte c = false ∧ c ≠ cRBrace
-
-theorem takeWhile_ref_tail (R : Bytes) (h : tailOk false R) : R.takeWhile isRefByte = [] := by
-  have := h rfl
-  cases R with
-  | nil => rfl
-  | cons c r => simp only at this; simp [isRefByte_eq, this.1]
-
-theorem takeWhile_word_tail (R : Bytes) (h : tailOk false R) : R.takeWhile isWordByte = [] := by
-  have := h rfl
-  cases R with
-  | nil => rfl
-  | cons c r => simp only at this; simp [this.1]
-
-theorem refMatchAt_ref (b : Bool) (ds R : Bytes) (hne : ds ≠ []) (hd : ds.all isWordByte = true)
-    (ht : tailOk b R) : refMatchAt (refTail b ds ++ R) = some (refTail b ds, ds, R) := by
-  have hall : ∀ a ∈ ds, isRefByte a = true := fun a ha => word_isRefByte a (List.all_eq_true.mp hd a ha)
-  cases b with
-  | true =>
-    have hrb : isRefByte cRBrace = false := by decide
-    have htw : (ds ++ cRBrace :: R).takeWhile isRefByte = ds := by
-      rw [List.takeWhile_append_of_pos hall]; simp [hrb]
-    have hemp : ds.isEmpty = false := by cases ds <;> simp_all
-    simp only [refTail, if_true, List.cons_append, List.append_assoc, List.nil_append, refMatchAt,
-      beq_self_eq_true, htw, hemp, Bool.false_eq_true, if_false, List.drop_left]
-  | false =>
-    cases ds with
-    | nil => exact absurd rfl hne
-    | cons d ds' =>
-      have hdd : isWordByte d = true := by simp only [List.all_cons, Bool.and_eq_true] at hd; exact hd.1
-      have hlb : (d == cLBrace) = false := by simpa using word_ne_lbrace d hdd
-      have htw : (d :: (ds' ++ R)).takeWhile isRefByte = d :: ds' := by
-        have := List.takeWhile_append_of_pos (l₂ := R) hall
-        rw [takeWhile_ref_tail R ht] at this
-        simpa using this
-      have hdrop : List.drop (d :: ds').length (d :: (ds' ++ R)) = R := by simp
-      show refMatchAt (d :: ds' ++ R) = some (d :: ds', d :: ds', R)
-      rw [List.cons_append]
-      unfold refMatchAt
-      simp only [hlb, Bool.false_eq_true, if_false]
-      rw [htw, hdrop]
-      have := ht rfl
-      cases R with
-      | nil => simp
-      | cons c r =>
-        simp only at this
-        have hc : (c == cRBrace) = false := by simpa using this.2
-        simp [hc]
-
-/-- `followOk` as a statement about the remainder of the template -/
-theorem followOk_cons_ref (b : Bool) (ds : Bytes) (segs : List Seg) (h : followOk (.ref b ds :: segs) = true) :
-    tailOk b (flatSegs segs) ∧ followOk segs = true := by
-  cases b with
-  | true => exact ⟨fun e => (by cases e), (by simpa [followOk] using h)⟩
-  | false =>
-    simp only [followOk, Bool.and_eq_true] at h
-    refine ⟨fun _ => ?_, h.2⟩
-    have h1 := h.1
-    cases hR : flatSegs segs with
-    | nil => trivial
-    | cons c r =>
-      rw [hR] at h1
-      simp only [Bool.and_eq_true, Bool.not_eq_true', bne_iff_ne, ne_eq] at h1
-      exact h1.1
-
-/-- the first byte, if any, is ASCII -/
-def headAscii (R : Bytes) : Prop :=
-  match R with
-  | [] => True
-  | c :: _ => c < 0x80
-
-/-- the part of `followOk` the regex side needs: what follows a bare reference is absent or ASCII -/
-theorem followOk_cons_ref_ascii (ds : Bytes) (segs : List Seg) (h : followOk (.ref false ds :: segs) = true) :
-    headAscii (flatSegs segs) := by
-  unfold headAscii
-  simp only [followOk, Bool.and_eq_true] at h
-  have h1 := h.1
-  cases hR : flatSegs segs with
-  | nil => trivial
-  | cons c r =>
-    rw [hR] at h1
-    simp only [Bool.and_eq_true, decide_eq_true_eq] at h1
-    exact h1.2
-
-theorem findRefs_flat : ∀ (segs : List Seg) (fuel : Nat), (∀ s ∈ segs, segOk s = true) → followOk segs = true →
-    (flatSegs segs).length ≤ fuel → findRefs fuel (flatSegs segs) = refsOf segs := by
-  intro segs
-  induction segs with
-  | nil => intro fuel _ _ _; cases fuel <;> rfl
-  | cons s segs ih =>
-    intro fuel hok hfo hf
-    have hok' : ∀ s ∈ segs, segOk s = true := fun s hs => hok s (List.mem_cons_of_mem _ hs)
-    cases s with
-    | lit l =>
-      have hl := segOk_lit l (hok _ List.mem_cons_self)
-      simp only [flatSegs, Seg.text, List.length_append] at hf ⊢
-      rw [findRefs_plain l fuel _ hl (by omega), refsOf]
-      exact ih _ hok' (by simpa [followOk] using hfo) (by omega)
-    | ref b ds =>
-      obtain ⟨hne, hd, _⟩ := segOk_ref b ds (hok _ List.mem_cons_self)
-      obtain ⟨ht, hfo'⟩ := followOk_cons_ref b ds segs hfo
-      simp only [flatSegs, Seg.text, refText_cons, List.cons_append, List.length_cons, List.length_append] at hf ⊢
-      cases fuel with
-      | zero => omega
-      | succ fuel =>
-        simp only [findRefs, beq_self_eq_true, if_true, refMatchAt_ref b ds _ hne hd ht, refsOf, refText_cons]
-        rw [ih fuel hok' hfo' (by omega)]
-
-
-/-! ### B. `%`-escaping and the single substitution pass -/
-
-theorem escapePct_cons (b : UInt8) (s : Bytes) :
-    escapePct (b :: s) = (if b == cPct then [cPct, cPct] else [b]) ++ escapePct s := by
-  simp [escapePct]
-
-theorem escapePct_cons_pct (s : Bytes) : escapePct (cPct :: s) = cPct :: cPct :: escapePct s := by
-  rw [escapePct_cons]; rfl
-
-theorem escapePct_cons_plain (b : UInt8) (s : Bytes) (hb : (b == cPct) = false) :
-    escapePct (b :: s) = b :: escapePct s := by
-  rw [escapePct_cons]; simp [hb]
-
-theorem escapePct_append (s t : Bytes) : escapePct (s ++ t) = escapePct s ++ escapePct t := by
-  simp [escapePct]
-
-/-- a text without `%` is not changed by the escaping -/
-theorem escapePct_plain (s : Bytes) (h : cPct ∉ s) : escapePct s = s := by
-  induction s with
-  | nil => rfl
-  | cons b s ih =>
-    simp only [List.mem_cons, not_or] at h
-    have hb : (b == cPct) = false := by
-      cases hbb : (b == cPct) with
-      | false => rfl
-      | true => exfalso; apply h.1; simp at hbb; exact hbb.symm
-    rw [escapePct_cons_plain b s hb, ih h.2]
-
-theorem dollar_not_mem_escapePct (l : Bytes) (h : cDollar ∉ l) : cDollar ∉ escapePct l := by
-  induction l with
-  | nil => exact h
-  | cons b l ih =>
-    simp only [List.mem_cons, not_or] at h
-    rw [escapePct_cons]
-    simp only [List.mem_append, not_or]
-    refine ⟨?_, ih h.2⟩
-    split
-    · decide
-    · simpa using h.1
-
-theorem word_ne_pct (d : UInt8) (h : isWordByte d = true) : d ≠ cPct := by
-  intro e; subst e; revert h; decide
-
-theorem pct_not_mem_word (ds : Bytes) (hd : ds.all isWordByte = true) : cPct ∉ ds := by
-  intro hm
-  have := List.all_eq_true.mp hd _ hm
-  revert this; decide
-
-/-- a reference text contains no `%`: the escaping does not touch `$`, `{`, `}` or name bytes -/
-theorem pct_not_mem_refText (b : Bool) (ds : Bytes) (hd : ds.all isWordByte = true) : cPct ∉ refText b ds := by
-  have := pct_not_mem_word ds hd
-  unfold refText
-  cases b
-  · simp only [Bool.false_eq_true, if_false, List.mem_cons, not_or]
-    exact ⟨by decide, this⟩
-  · simp only [if_true, List.mem_cons, List.mem_append, List.not_mem_nil, or_false, not_or]
-    exact ⟨by decide, by decide, this, by decide⟩
-
-/-- the escaping does not change the first byte -/
-theorem tailOk_escapePct (b : Bool) (R : Bytes) (h : tailOk b R) : tailOk b (escapePct R) := by
-  intro hb
-  have h1 := h hb
-  cases R with
-  | nil => trivial
-  | cons c r =>
-    simp only at h1
-    by_cases hc : (c == cPct) = true
-    · have hce : c = cPct := by simpa using hc
-      subst hce
-      rw [escapePct_cons_pct]
-      exact h1
-    · have hc' : (c == cPct) = false := by simpa using hc
-      rw [escapePct_cons_plain c r hc']
-      exact h1
-
-/-- the escaping does not change the name run at the head of a text … -/
-theorem takeWhile_escapePct (s : Bytes) : (escapePct s).takeWhile isRefByte = s.takeWhile isRefByte := by
-  induction s with
-  | nil => rfl
-  | cons b s ih =>
-    by_cases hb : (b == cPct) = true
-    · have : b = cPct := by simpa using hb
-      subst this
-      rw [escapePct_cons_pct]
-      have : isRefByte cPct = false := by decide
-      simp [this]
-    · have hb' : (b == cPct) = false := by simpa using hb
-      rw [escapePct_cons_plain b s hb']
-      simp only [List.takeWhile_cons, ih]
-
-/-- … and commutes with dropping it -/
-theorem drop_takeWhile_escapePct (s : Bytes) :
-    (escapePct s).drop (s.takeWhile isRefByte).length = escapePct (s.drop (s.takeWhile isRefByte).length) := by
-  induction s with
-  | nil => rfl
-  | cons b s ih =>
-    by_cases hr : isRefByte b = true
-    · have hb' : (b == cPct) = false := by
-        have := word_ne_pct b hr
-        simpa using this
-      rw [escapePct_cons_plain b s hb']
-      simp only [List.takeWhile_cons, hr, if_true, List.length_cons, List.drop_succ_cons]
-      exact ih
-    · simp [hr]
-
-theorem takeWhile_append_drop {α : Type} (p : α → Bool) (l : List α) :
-    l.takeWhile p ++ l.drop (l.takeWhile p).length = l := by
-  induction l with
-  | nil => rfl
-  | cons a l ih =>
-    by_cases h : p a = true
-    · simp only [List.takeWhile_cons, h, if_true, List.length_cons, List.drop_succ_cons, List.cons_append, ih]
-    · simp [h]
-
-/-- `refMatchAt` after the optional `{` (`pre`) has been taken off -/
-def refMatchCore (pre r1 : Bytes) : Option (Bytes × Bytes × Bytes) :=
-  let grp := r1.takeWhile isRefByte
-  if grp.isEmpty then none
-  else
-    let r2 := r1.drop grp.length
-    match r2 with
-    | b :: r3 => if b == cRBrace then some (pre ++ grp ++ [cRBrace], grp, r3) else some (pre ++ grp, grp, r2)
-    | [] => some (pre ++ grp, grp, [])
-
-theorem refMatchAt_eq_core (rest : Bytes) :
-    refMatchAt rest = match rest with
-      | [] => none
-      | b :: r => if b == cLBrace then refMatchCore [cLBrace] r else refMatchCore [] (b :: r) := by
-  cases rest with
-  | nil => rfl
-  | cons b r =>
-    by_cases hb : (b == cLBrace) = true
-    · simp only [hb, if_true]; unfold refMatchAt refMatchCore; simp only [hb, if_true]; rfl
-    · have hb' : (b == cLBrace) = false := by simpa using hb
-      simp only [hb', Bool.false_eq_true, if_false]; unfold refMatchAt refMatchCore
-      simp only [hb', Bool.false_eq_true, if_false]; rfl
-
-theorem refMatchCore_escapePct (pre r1 : Bytes) :
-    refMatchCore pre (escapePct r1) = (refMatchCore pre r1).map fun x => (x.1, x.2.1, escapePct x.2.2) := by
-  unfold refMatchCore
-  simp only [takeWhile_escapePct, drop_takeWhile_escapePct]
-  by_cases hg : (r1.takeWhile isRefByte).isEmpty = true
-  · simp only [hg, if_true]; rfl
-  · have hg' : (r1.takeWhile isRefByte).isEmpty = false := by simpa using hg
-    simp only [hg', Bool.false_eq_true, if_false]
-    generalize r1.drop (r1.takeWhile isRefByte).length = r2
-    cases r2 with
-    | nil => rfl
-    | cons c r3 =>
-      by_cases hc : (c == cPct) = true
-      · have hce : c = cPct := by simpa using hc
-        subst hce
-        have : (cPct == cRBrace) = false := by decide
-        simp only [escapePct_cons_pct, this, Bool.false_eq_true, if_false, Option.map_some]
-      · have hc' : (c == cPct) = false := by simpa using hc
-        by_cases hcb : (c == cRBrace) = true
-        · simp only [escapePct_cons_plain c r3 hc', hcb, if_true, Option.map_some]
-        · have hcb' : (c == cRBrace) = false := by simpa using hcb
-          simp only [escapePct_cons_plain c r3 hc', hcb', Bool.false_eq_true, if_false, Option.map_some]
-
-/-- **`%`-escaping does not touch the references** (1): the formatter's regex, anchored after a `$`,
-    matches in the escaped text exactly what it matches in the original one, and what remains is the
-    escaped remainder. -/
-theorem refMatchAt_escapePct (rest : Bytes) :
-    refMatchAt (escapePct rest) = (refMatchAt rest).map fun x => (x.1, x.2.1, escapePct x.2.2) := by
-  cases rest with
-  | nil => rfl
-  | cons b r =>
-    by_cases hb : (b == cLBrace) = true
-    · have hbe : b = cLBrace := by simpa using hb
-      subst hbe
-      have hp : (cLBrace == cPct) = false := by decide
-      rw [escapePct_cons_plain cLBrace r hp, refMatchAt_eq_core, refMatchAt_eq_core]
-      simp only [beq_self_eq_true, if_true]
-      exact refMatchCore_escapePct _ r
-    · have hb' : (b == cLBrace) = false := by simpa using hb
-      have hcore := refMatchCore_escapePct [] (b :: r)
-      rw [refMatchAt_eq_core (b :: r)]
-      simp only [hb', Bool.false_eq_true, if_false]
-      rw [← hcore]
-      by_cases hp : (b == cPct) = true
-      · have hbe : b = cPct := by simpa using hp
-        subst hbe
-        rw [escapePct_cons_pct, refMatchAt_eq_core]
-        simp only [hb', Bool.false_eq_true, if_false]
-      · have hp' : (b == cPct) = false := by simpa using hp
-        rw [escapePct_cons_plain b r hp', refMatchAt_eq_core]
-        simp only [hb', Bool.false_eq_true, if_false]
-
-theorem refMatchCore_split (pre r1 m g r : Bytes) (hpre : cPct ∉ pre) (h : refMatchCore pre r1 = some (m, g, r)) :
-    pre ++ r1 = m ++ r ∧ cPct ∉ m := by
-  have hg : cPct ∉ r1.takeWhile isRefByte := by
-    intro hm
-    have := List.all_eq_true.mp (List.all_takeWhile (p := isRefByte) (l := r1)) _ hm
-    revert this; decide
-  have hsplit : r1 = r1.takeWhile isRefByte ++ r1.drop (r1.takeWhile isRefByte).length :=
-    (takeWhile_append_drop isRefByte r1).symm
-  unfold refMatchCore at h
-  simp only at h
-  split at h
-  · cases h
-  · split at h
-    · rename_i c r3 hr2
-      split at h
-      · rename_i hc
-        have hce : c = cRBrace := by simpa using hc
-        simp only [Option.some.injEq, Prod.mk.injEq] at h
-        obtain ⟨rfl, _, rfl⟩ := h
-        refine ⟨?_, ?_⟩
-        · conv => lhs; rw [hsplit, hr2, hce]
-          simp
-        · simp only [List.mem_append, not_or, List.mem_singleton]
-          exact ⟨⟨hpre, hg⟩, by decide⟩
-      · simp only [Option.some.injEq, Prod.mk.injEq] at h
-        obtain ⟨rfl, _, rfl⟩ := h
-        refine ⟨?_, ?_⟩
-        · conv => lhs; rw [hsplit]
-          simp
-        · simp only [List.mem_append, not_or]; exact ⟨hpre, hg⟩
-    · rename_i hr2
-      simp only [Option.some.injEq, Prod.mk.injEq] at h
-      obtain ⟨rfl, _, rfl⟩ := h
-      refine ⟨?_, ?_⟩
-      · conv => lhs; rw [hsplit, hr2]
-        simp
-      · simp only [List.mem_append, not_or]; exact ⟨hpre, hg⟩
-
-/-- a match of the formatter's regex splits the text into the match and the remainder, and the match
-    contains no `%` -/
-theorem refMatchAt_split (rest m g r : Bytes) (h : refMatchAt rest = some (m, g, r)) :
-    rest = m ++ r ∧ cPct ∉ m := by
-  rw [refMatchAt_eq_core] at h
-  cases rest with
-  | nil => cases h
-  | cons b r' =>
-    simp only at h
-    split at h
-    · rename_i hb
-      have hbe : b = cLBrace := by simpa using hb
-      subst hbe
-      have := refMatchCore_split [cLBrace] r' m g r (by decide) h
-      simpa using this
-    · have := refMatchCore_split [] (b :: r') m g r (by simp) h
-      simpa using this
-
-theorem findRefs_nil' (fuel : Nat) : findRefs fuel [] = [] := by cases fuel <;> rfl
-
-/-- **`%`-escaping does not touch the references** (2): `FindAllStringSubmatch` returns the same
-    (match, group) pairs on the escaped template as on the original one -/
-theorem findRefs_escapePct : ∀ (fuel fuel' : Nat) (t : Bytes), t.length ≤ fuel → (escapePct t).length ≤ fuel' →
-    findRefs fuel' (escapePct t) = findRefs fuel t := by
-  intro fuel
-  induction fuel with
-  | zero =>
-    intro fuel' t h _
-    have : t = [] := by cases t <;> simp_all
-    subst this
-    exact findRefs_nil' fuel'
-  | succ fuel ih =>
-    intro fuel' t h h'
-    cases t with
-    | nil => exact findRefs_nil' fuel'
-    | cons b rest =>
-      simp only [List.length_cons] at h
-      by_cases hd : (b == cDollar) = true
-      · have hbe : b = cDollar := by simpa using hd
-        subst hbe
-        have hp : (cDollar == cPct) = false := by decide
-        rw [escapePct_cons_plain cDollar rest hp] at h' ⊢
-        cases fuel' with
-        | zero => simp at h'
-        | succ fuel' =>
-          simp only [List.length_cons] at h'
-          simp only [findRefs, beq_self_eq_true, if_true, refMatchAt_escapePct]
-          cases hm : refMatchAt rest with
-          | none => exact ih fuel' rest (by omega) (by omega)
-          | some x =>
-            obtain ⟨m, g, r⟩ := x
-            obtain ⟨hsp, _⟩ := refMatchAt_split rest m g r hm
-            have hl : r.length ≤ rest.length := by rw [hsp]; simp
-            have hl' : (escapePct r).length ≤ (escapePct rest).length := by
-              rw [hsp, escapePct_append]; simp
-            simp only [Option.map_some]
-            rw [ih fuel' r (by omega) (by omega)]
-      · have hd' : (b == cDollar) = false := by simpa using hd
-        by_cases hp : (b == cPct) = true
-        · have hbe : b = cPct := by simpa using hp
-          subst hbe
-          rw [escapePct_cons_pct] at h' ⊢
-          simp only [List.length_cons] at h'
-          cases fuel' with
-          | zero => omega
-          | succ fuel' =>
-            cases fuel' with
-            | zero => omega
-            | succ fuel' =>
-              simp only [findRefs, hd', Bool.false_eq_true, if_false]
-              exact ih fuel' rest (by omega) (by omega)
-        · have hp' : (b == cPct) = false := by simpa using hp
-          rw [escapePct_cons_plain b rest hp'] at h' ⊢
-          simp only [List.length_cons] at h'
-          cases fuel' with
-          | zero => omega
-          | succ fuel' =>
-            simp only [findRefs, hd', Bool.false_eq_true, if_false]
-            exact ih fuel' rest (by omega) (by omega)
-
-/-- in particular with the fuels `NewTemplateFormatter` would use -/
-theorem findRefs_escapePct_self (t : Bytes) :
-    findRefs (escapePct t).length (escapePct t) = findRefs t.length t :=
-  findRefs_escapePct t.length (escapePct t).length t (Nat.le_refl _) (Nat.le_refl _)
-
-/-- argument index of a reference (`none`: not a number, `0`, or out of range — replaced by nothing) -/
-def idxOf (n : Nat) (ds : Bytes) : Option Nat :=
-  match atoiDigits ds with
-  | some idx => if idx > n || idx < 1 then none else some (idx - 1)
-  | none => none
-
-/-- what a reference becomes in the format string -/
-def substOf (n : Nat) (ds : Bytes) : Bytes :=
-  match idxOf n ds with
-  | some _ => [cPct, 115]
-  | none => []
-
-/-- the format string of a segmented template: escaped literals, `%s` at the usable references -/
-def fmtOf (n : Nat) : List Seg → Bytes
-  | [] => []
-  | .lit l :: segs => escapePct l ++ fmtOf n segs
-  | .ref _ ds :: segs => substOf n ds ++ fmtOf n segs
-
-/-- the indexes of the usable references, in order -/
-def idxsOf (n : Nat) : List Seg → List Nat
-  | [] => []
-  | .lit _ :: segs => idxsOf n segs
-  | .ref _ ds :: segs => (idxOf n ds).toList ++ idxsOf n segs
-
-theorem substRefs_nil (n fuel : Nat) : substRefs n fuel [] = ([], []) := by cases fuel <;> rfl
-
-/-- text without `$` is copied by the pass -/
-theorem substRefs_plain (n : Nat) : ∀ (l : Bytes) (fuel : Nat) (rest : Bytes), cDollar ∉ l → l.length ≤ fuel →
-    substRefs n fuel (l ++ rest) =
-      (l ++ (substRefs n (fuel - l.length) rest).1, (substRefs n (fuel - l.length) rest).2) := by
-  intro l
-  induction l with
-  | nil => intro fuel rest _ _; simp
-  | cons b l ih =>
-    intro fuel rest hd hf
-    simp only [List.mem_cons, not_or] at hd
-    cases fuel with
-    | zero => simp at hf
-    | succ fuel =>
-      have hb : (b == cDollar) = false := by
-        cases hbb : (b == cDollar) with
-        | false => rfl
-        | true => exfalso; apply hd.1; simp at hbb; exact hbb.symm
-      simp only [List.cons_append, substRefs, hb, Bool.false_eq_true, if_false, List.length_cons]
-      rw [ih fuel rest hd.2 (by simpa using hf)]
-      have : fuel + 1 - (l.length + 1) = fuel - l.length := by omega
-      rw [this]
-
-/-- **the single pass on a segmented template**: the format string and the indexes -/
-theorem substRefs_flat (n : Nat) : ∀ (segs : List Seg) (fuel : Nat), (∀ s ∈ segs, segOk s = true) →
-    followOk segs = true → (escapePct (flatSegs segs)).length ≤ fuel →
-    substRefs n fuel (escapePct (flatSegs segs)) = (fmtOf n segs, idxsOf n segs) := by
-  intro segs
-  induction segs with
-  | nil => intro fuel _ _ _; exact substRefs_nil n fuel
-  | cons s segs ih =>
-    intro fuel hok hfo hf
-    have hok' : ∀ s ∈ segs, segOk s = true := fun s hs => hok s (List.mem_cons_of_mem _ hs)
-    cases s with
-    | lit l =>
-      have hl := dollar_not_mem_escapePct l (segOk_lit l (hok _ List.mem_cons_self))
-      simp only [flatSegs, Seg.text, escapePct_append, List.length_append] at hf ⊢
-      rw [substRefs_plain n _ fuel _ hl (by omega)]
-      rw [ih _ hok' (by simpa [followOk] using hfo) (by omega)]
-      rfl
-    | ref b ds =>
-      obtain ⟨hne, hd, _⟩ := segOk_ref b ds (hok _ List.mem_cons_self)
-      obtain ⟨ht, hfo'⟩ := followOk_cons_ref b ds segs hfo
-      have ht' := tailOk_escapePct b _ ht
-      simp only [flatSegs, Seg.text, escapePct_append, escapePct_plain _ (pct_not_mem_refText b ds hd)] at hf ⊢
-      simp only [refText_cons, List.cons_append, List.length_cons, List.length_append] at hf ⊢
-      cases fuel with
-      | zero => omega
-      | succ fuel =>
-        simp only [substRefs, beq_self_eq_true, if_true, refMatchAt_ref b ds _ hne hd ht']
-        rw [ih fuel hok' hfo' (by omega)]
-        simp only [fmtOf, idxsOf, substOf, idxOf]
-        cases atoiDigits ds with
-        | none => rfl
-        | some idx =>
-          by_cases h : (idx > n || idx < 1) = true
-          · simp only [h, if_true]; rfl
-          · simp only [h]; rfl
-
-/-! ### C. `Sprintf` on the format string -/
-
-def argsOf (n : Nat) (caps : List Bytes) : List Seg → List Bytes
-  | [] => []
-  | .lit _ :: segs => argsOf n caps segs
-  | .ref _ ds :: segs => (match idxOf n ds with | some i => [caps.getD i []] | none => []) ++ argsOf n caps segs
-
-/-- what the formatter outputs on a safe template -/
-def expected (n : Nat) (caps : List Bytes) : List Seg → Bytes
-  | [] => []
-  | .lit l :: segs => l ++ expected n caps segs
-  | .ref _ ds :: segs => (match idxOf n ds with | some i => caps.getD i [] | none => []) ++ expected n caps segs
-
-theorem args_eq (n : Nat) (caps : List Bytes) (segs : List Seg) :
-    (idxsOf n segs).map (fun i => caps.getD i []) = argsOf n caps segs := by
-  induction segs with
-  | nil => rfl
-  | cons s segs ih =>
-    cases s with
-    | lit l => simpa [idxsOf, argsOf] using ih
-    | ref b ds =>
-      simp only [idxsOf, argsOf, List.map_append, ih]
-      cases h : idxOf n ds <;> rfl
+/-! ### `Sprintf`, read from the front -/
 
 theorem sprintfS_cons_plain (b : UInt8) (rest : Bytes) (args : List Bytes) (hb : (b == cPct) = false) :
     sprintfS (b :: rest) args = (sprintfS rest args).map (b :: ·) := by
@@ -676,6 +33,10 @@ theorem sprintfS_pct_pct (R : Bytes) (args : List Bytes) :
   rw [sprintfS.eq_def]
   have : (cPct == (115 : UInt8)) = false := by decide
   simp [this]
+
+theorem sprintfS_pct_s (R a : Bytes) (as : List Bytes) :
+    sprintfS (cPct :: 115 :: R) (a :: as) = (sprintfS R as).map (a ++ ·) := by
+  rw [sprintfS.eq_def]; simp
 
 /-- `Sprintf` un-escapes an escaped literal, whatever the arguments (it consumes none) -/
 theorem sprintfS_escapePct : ∀ (l rest : Bytes) (args : List Bytes),
@@ -694,473 +55,376 @@ theorem sprintfS_escapePct : ∀ (l rest : Bytes) (args : List Bytes),
       rw [escapePct_cons_plain b l hb', List.cons_append, sprintfS_cons_plain _ _ _ hb', ih rest args]
       cases sprintfS rest args <;> simp
 
-theorem sprintfS_pct_s (R a : Bytes) (as : List Bytes) :
-    sprintfS (cPct :: 115 :: R) (a :: as) = (sprintfS R as).map (a ++ ·) := by
-  rw [sprintfS.eq_def]; simp
+/-! ### one step of the formatter's scan -/
 
-/-- no hypothesis about the literals: whatever they contain has been escaped. This also covers a
-    template whose references are all unusable (`$5` with two captures, `$foo`): no arguments, and
-    `Sprintf` still un-escapes `%%`. -/
-theorem sprintf_fmtOf (n : Nat) (caps : List Bytes) (segs : List Seg) :
-    sprintfS (fmtOf n segs) (argsOf n caps segs) = some (expected n caps segs) := by
-  induction segs with
-  | nil => simp [fmtOf, argsOf, expected, sprintfS]
-  | cons s segs ih =>
-    cases s with
-    | lit l =>
-      simp only [fmtOf, argsOf, expected]
-      rw [sprintfS_escapePct l _ _, ih]; rfl
-    | ref b ds =>
-      simp only [fmtOf, argsOf, expected, substOf]
-      cases h : idxOf n ds with
-      | none => simpa using ih
-      | some i =>
-        simp only [List.cons_append, List.nil_append]
-        rw [sprintfS_pct_s, ih]; rfl
+/-- what the formatter makes of a well-formed reference `name`, given the result for the rest -/
+def refStep (n : Nat) (name : Bytes) (o : Bytes × List Nat × Bool) : Bytes × List Nat × Bool :=
+  match rxNum name with
+  | some idx =>
+    if idx > n || idx < 1 then (o.1, o.2.1, true)
+    else ([cPct, 115] ++ o.1, (idx - 1) :: o.2.1, true)
+  | none => (o.1, o.2.1, true)
 
-/-- a segment list without references is its literal text -/
-theorem expected_no_refs (n : Nat) (caps : List Bytes) (segs : List Seg) (h : refsOf segs = []) :
-    expected n caps segs = flatSegs segs := by
-  induction segs with
-  | nil => rfl
-  | cons s segs ih =>
-    cases s with
-    | lit l => simp only [expected, flatSegs, Seg.text]; rw [ih (by simpa [refsOf] using h)]
-    | ref b ds => simp [refsOf] at h
-
-/-! ### D. `expandSpec` on a segmented template -/
-
-def specOut (caps : List Bytes) : List Seg → Bytes
-  | [] => []
-  | .lit l :: segs => l ++ specOut caps segs
-  | .ref _ ds :: segs =>
-    (match rxNum ds with
-     | some k => if k ≥ 1 then caps.getD (k - 1) [] else []
-     | none => []) ++ specOut caps segs
-
-theorem expandSpec_nil (caps : List Bytes) (fuel : Nat) : expandSpec caps fuel [] = [] := by
+theorem substRefs_nil (n fuel : Nat) : substRefs n fuel [] = some ([], [], false) := by
   cases fuel <;> rfl
 
-theorem expandSpec_plain (caps : List Bytes) : ∀ (l : Bytes) (fuel : Nat) (rest : Bytes), cDollar ∉ l → l.length ≤ fuel →
-    expandSpec caps fuel (l ++ rest) = l ++ expandSpec caps (fuel - l.length) rest := by
-  intro l
-  induction l with
-  | nil => intro fuel rest _ _; simp
-  | cons b l ih =>
-    intro fuel rest hm hf
-    simp only [List.mem_cons, not_or] at hm
-    cases fuel with
-    | zero => simp at hf
-    | succ fuel =>
-      have hb : (b == cDollar) = false := by
-        cases hbb : (b == cDollar) with
-        | false => rfl
-        | true => exfalso; apply hm.1; simp at hbb; exact hbb.symm
-      simp only [List.cons_append, expandSpec, hb, Bool.false_eq_true, if_false, List.length_cons,
-        List.cons.injEq, true_and]
-      rw [ih fuel rest hm.2 (by simpa using hf)]
-      congr 2; omega
+theorem substRefs_cons_plain (n fuel : Nat) (b : UInt8) (rest : Bytes) (hb : (b == cDollar) = false) :
+    substRefs n (fuel + 1) (b :: rest) = (substRefs n fuel rest).map fun o => (b :: o.1, o.2.1, o.2.2) := by
+  simp only [substRefs, hb, Bool.false_eq_true, if_false]
 
-theorem rxExtract_ref (b : Bool) (ds R : Bytes) (hne : ds ≠ []) (hd : ds.all isWordByte = true)
-    (ht : tailOk b R) : rxExtract (refTail b ds ++ R) = some (ds, R) := by
-  have hall : ∀ a ∈ ds, isWordByte a = true := fun a ha => List.all_eq_true.mp hd a ha
-  have hemp : ds.isEmpty = false := by cases ds <;> simp_all
-  cases b with
-  | true =>
-    have hrb : isWordByte cRBrace = false := by decide
-    have htw : (ds ++ cRBrace :: R).takeWhile isWordByte = ds := by
-      rw [List.takeWhile_append_of_pos hall]; simp [hrb]
-    simp only [refTail, if_true, List.cons_append, List.append_assoc, List.nil_append, rxExtract,
-      beq_self_eq_true, htw, hemp, Bool.false_eq_true, if_false, List.drop_left]
-  | false =>
-    cases ds with
-    | nil => exact absurd rfl hne
-    | cons d ds' =>
-      have hdd : isWordByte d = true := by simp only [List.all_cons, Bool.and_eq_true] at hd; exact hd.1
-      have hlb : (d == cLBrace) = false := by simpa using word_ne_lbrace d hdd
-      have htw : (d :: (ds' ++ R)).takeWhile isWordByte = d :: ds' := by
-        have := List.takeWhile_append_of_pos (l₂ := R) hall
-        rw [takeWhile_word_tail R ht] at this
-        simpa using this
-      have hdrop : List.drop (d :: ds').length (d :: (ds' ++ R)) = R := by simp
-      show rxExtract (d :: ds' ++ R) = some (d :: ds', R)
-      rw [List.cons_append]
-      unfold rxExtract
-      simp only [hlb, Bool.false_eq_true, if_false]
-      rw [htw, hdrop]
-      simp
+theorem substRefs_dollar_end (n fuel : Nat) :
+    substRefs n (fuel + 1) [cDollar] = some ([cDollar], [], false) := by
+  have h0 : (cDollar == cDollar) = true := by decide
+  simp only [substRefs, h0, if_true]
 
-theorem expandSpec_flat (caps : List Bytes) : ∀ (segs : List Seg) (fuel : Nat), (∀ s ∈ segs, segOk s = true) →
-    followOk segs = true → (flatSegs segs).length ≤ fuel →
-    expandSpec caps fuel (flatSegs segs) = specOut caps segs := by
-  intro segs
-  induction segs with
-  | nil => intro fuel _ _ _; exact expandSpec_nil caps fuel
-  | cons s segs ih =>
-    intro fuel hok hfo hf
-    have hok' : ∀ s ∈ segs, segOk s = true := fun s hs => hok s (List.mem_cons_of_mem _ hs)
-    cases s with
-    | lit l =>
-      have hl := segOk_lit l (hok _ List.mem_cons_self)
-      simp only [flatSegs, Seg.text, List.length_append, specOut] at hf ⊢
-      rw [expandSpec_plain caps l fuel _ hl (by omega)]
-      rw [ih _ hok' (by simpa [followOk] using hfo) (by omega)]
-    | ref b ds =>
-      obtain ⟨hne, hd, _⟩ := segOk_ref b ds (hok _ List.mem_cons_self)
-      obtain ⟨ht, hfo'⟩ := followOk_cons_ref b ds segs hfo
-      have hx := rxExtract_ref b ds (flatSegs segs) hne hd ht
-      -- the byte after `$` is `{` or a word byte, not `$`
-      have htail : ∃ c tl, refTail b ds = c :: tl ∧ (c == cDollar) = false := by
-        cases b with
-        | true => exact ⟨cLBrace, ds ++ [cRBrace], rfl, by decide⟩
-        | false =>
-          cases ds with
-          | nil => exact absurd rfl hne
-          | cons d ds' =>
-            have hdd : isWordByte d = true := by simp only [List.all_cons, Bool.and_eq_true] at hd; exact hd.1
-            exact ⟨d, ds', rfl, by simpa using word_ne_dollar d hdd⟩
-      obtain ⟨c, tl, hc1, hc2⟩ := htail
-      simp only [flatSegs, Seg.text, refText_cons, List.cons_append, List.length_cons, List.length_append,
-        specOut] at hf ⊢
-      cases fuel with
-      | zero => omega
-      | succ fuel =>
-        rw [hc1] at hx hf ⊢
-        simp only [List.cons_append] at hx hf ⊢
-        simp only [expandSpec, beq_self_eq_true, if_true, hc2, Bool.false_eq_true, if_false, hx]
-        rw [ih fuel hok' hfo' (by simp at hf; omega)]
-        cases rxNum ds <;> rfl
+theorem substRefs_dollar_dollar (n fuel : Nat) (r : Bytes) :
+    substRefs n (fuel + 1) (cDollar :: cDollar :: r) =
+      (substRefs n fuel r).map fun o => (cDollar :: o.1, o.2.1, true) := by
+  have h0 : (cDollar == cDollar) = true := by decide
+  simp only [substRefs, h0, if_true]
 
-/-! ### D'. the regex-side guard on a segmented template -/
+theorem substRefs_dollar_none (n fuel : Nat) (c : UInt8) (X : Bytes) (hc : (c == cDollar) = false)
+    (hx : rxExtractU (c :: X) = none) : substRefs n (fuel + 1) (cDollar :: c :: X) = none := by
+  have h0 : (cDollar == cDollar) = true := by decide
+  simp only [substRefs, h0, hc, hx, if_true, Bool.false_eq_true, if_false]
 
-theorem refsAsciiFollowed_plain : ∀ (l : Bytes) (fuel : Nat) (rest : Bytes), cDollar ∉ l → l.length ≤ fuel →
-    refsAsciiFollowed fuel (l ++ rest) = refsAsciiFollowed (fuel - l.length) rest := by
-  intro l
-  induction l with
-  | nil => intro fuel rest _ _; simp
-  | cons b l ih =>
-    intro fuel rest hm hf
-    simp only [List.mem_cons, not_or] at hm
-    cases fuel with
-    | zero => simp at hf
-    | succ fuel =>
-      have hb : (b == cDollar) = false := by
-        cases hbb : (b == cDollar) with
-        | false => rfl
-        | true => exfalso; apply hm.1; simp at hbb; exact hbb.symm
-      simp only [List.cons_append, refsAsciiFollowed, hb, Bool.false_eq_true, if_false, List.length_cons]
-      rw [ih fuel rest hm.2 (by simpa using hf)]
-      congr 1; omega
+theorem substRefs_dollar_malformed (n fuel : Nat) (c : UInt8) (X : Bytes) (hc : (c == cDollar) = false)
+    (hx : rxExtractU (c :: X) = some none) :
+    substRefs n (fuel + 1) (cDollar :: c :: X) =
+      (substRefs n fuel (c :: X)).map fun o => (cDollar :: o.1, o.2.1, o.2.2) := by
+  have h0 : (cDollar == cDollar) = true := by decide
+  simp only [substRefs, h0, hc, hx, if_true, Bool.false_eq_true, if_false]
 
-/-- after a well-formed reference of a safe template the next byte is ASCII: `}` for a braced one,
-    what `followOk` allows for a bare one -/
-theorem asciiAfterName_ref (b : Bool) (ds R : Bytes) (hne : ds ≠ []) (hd : ds.all isWordByte = true)
-    (ht : tailOk b R) (ha : b = false → headAscii R) :
-    asciiAfterName (refTail b ds ++ R) = true := by
-  have hall : ∀ a ∈ ds, isWordByte a = true := fun a ha => List.all_eq_true.mp hd a ha
-  cases b with
-  | true =>
-    have hrb : isWordByte cRBrace = false := by decide
-    have hdw : (ds ++ cRBrace :: R).dropWhile isWordByte = cRBrace :: R := by
-      rw [List.dropWhile_append_of_pos hall]; simp [hrb]
-    simp only [refTail, if_true, List.cons_append, List.append_assoc, List.nil_append, asciiAfterName,
-      beq_self_eq_true, hdw]
-    decide
-  | false =>
-    cases ds with
-    | nil => exact absurd rfl hne
-    | cons d ds' =>
-      have hdd : isWordByte d = true := by simp only [List.all_cons, Bool.and_eq_true] at hd; exact hd.1
-      have hlb : (d == cLBrace) = false := by simpa using word_ne_lbrace d hdd
-      have hdw : (d :: (ds' ++ R)).dropWhile isWordByte = R.dropWhile isWordByte := by
-        have := List.dropWhile_append_of_pos (l₂ := R) hall
-        simpa using this
-      show asciiAfterName (d :: ds' ++ R) = true
-      rw [List.cons_append]
-      unfold asciiAfterName
-      simp only [hlb, Bool.false_eq_true, if_false]
-      rw [hdw]
-      have h1 := ht rfl
-      have h2 := ha rfl
-      cases R with
-      | nil => rfl
-      | cons c r =>
-        simp only [headAscii] at h1 h2
-        simp [h1.1, h2]
+theorem substRefs_dollar_name (n fuel : Nat) (c : UInt8) (X name r : Bytes) (hc : (c == cDollar) = false)
+    (hx : rxExtractU (c :: X) = some (some (name, r))) :
+    substRefs n (fuel + 1) (cDollar :: c :: X) = (substRefs n fuel r).map (refStep n name) := by
+  have h0 : (cDollar == cDollar) = true := by decide
+  simp only [substRefs, h0, hc, hx, if_true, Bool.false_eq_true, if_false]
+  cases substRefs n fuel r with
+  | none => rfl
+  | some o =>
+    simp only [Option.map_some, refStep]
+    cases rxNum name <;> rfl
 
-/-- **a safe template satisfies the regex-side guard**: `followOk` (strengthened: ASCII after a bare
-    name) gives `refsAsciiFollowed` -/
-theorem refsAsciiFollowed_flat : ∀ (segs : List Seg) (fuel : Nat), (∀ s ∈ segs, segOk s = true) →
-    followOk segs = true → (flatSegs segs).length ≤ fuel →
-    refsAsciiFollowed fuel (flatSegs segs) = true := by
-  intro segs
-  induction segs with
-  | nil => intro fuel _ _ _; cases fuel <;> rfl
-  | cons s segs ih =>
-    intro fuel hok hfo hf
-    have hok' : ∀ s ∈ segs, segOk s = true := fun s hs => hok s (List.mem_cons_of_mem _ hs)
-    cases s with
-    | lit l =>
-      have hl := segOk_lit l (hok _ List.mem_cons_self)
-      simp only [flatSegs, Seg.text, List.length_append] at hf ⊢
-      rw [refsAsciiFollowed_plain l fuel _ hl (by omega)]
-      exact ih _ hok' (by simpa [followOk] using hfo) (by omega)
-    | ref b ds =>
-      obtain ⟨hne, hd, _⟩ := segOk_ref b ds (hok _ List.mem_cons_self)
-      obtain ⟨ht, hfo'⟩ := followOk_cons_ref b ds segs hfo
-      have hx := rxExtract_ref b ds (flatSegs segs) hne hd ht
-      have hfa : b = false → headAscii (flatSegs segs) := by
-        intro hb; subst hb
-        exact followOk_cons_ref_ascii ds segs hfo
-      have hasc : asciiAfterName (refTail b ds ++ flatSegs segs) = true :=
-        asciiAfterName_ref b ds _ hne hd ht hfa
-      have htail : ∃ c tl, refTail b ds = c :: tl ∧ (c == cDollar) = false := by
-        cases b with
-        | true => exact ⟨cLBrace, ds ++ [cRBrace], rfl, by decide⟩
-        | false =>
-          cases ds with
-          | nil => exact absurd rfl hne
-          | cons d ds' =>
-            have hdd : isWordByte d = true := by simp only [List.all_cons, Bool.and_eq_true] at hd; exact hd.1
-            exact ⟨d, ds', rfl, by simpa using word_ne_dollar d hdd⟩
-      obtain ⟨c, tl, hc1, hc2⟩ := htail
-      simp only [flatSegs, Seg.text, refText_cons, List.cons_append, List.length_cons, List.length_append] at hf ⊢
-      cases fuel with
-      | zero => omega
-      | succ fuel =>
-        rw [hc1] at hx hasc hf ⊢
-        simp only [List.cons_append] at hx hasc hf ⊢
-        simp only [refsAsciiFollowed, beq_self_eq_true, if_true, hc2, Bool.false_eq_true, if_false, hx, hasc,
-          Bool.true_and]
-        exact ih fuel hok' hfo' (by simp at hf; omega)
+/-! ### one step of the specification's scan -/
 
-theorem expected_eq_specOut (n : Nat) (caps : List Bytes) (hc : caps.length ≤ n) (segs : List Seg)
-    (hok : ∀ s ∈ segs, segOk s = true) : expected n caps segs = specOut caps segs := by
-  induction segs with
-  | nil => rfl
-  | cons s segs ih =>
-    have ih' := ih (fun s hs => hok s (List.mem_cons_of_mem _ hs))
-    cases s with
-    | lit l => simp only [expected, specOut, ih']
-    | ref b ds =>
-      obtain ⟨hne, _, hcase⟩ := segOk_ref b ds (hok _ List.mem_cons_self)
-      rcases hcase with ⟨k, hk⟩ | ⟨hk, ha⟩
-      case inr => simp only [expected, specOut, ih', idxOf, ha, hk]
-      have ha := rxNum_atoi ds hne k hk
-      simp only [expected, specOut, ih', idxOf, ha, hk]
-      congr 1
-      by_cases h1 : k < 1
-      · have : ¬ k ≥ 1 := by omega
-        simp [h1, this]
-      · have h1' : k ≥ 1 := by omega
-        by_cases h2 : k > n
-        · have : caps[k - 1]? = none := List.getElem?_eq_none (by omega)
-          simp [h2, h1', this]
-        · simp [h1, h2, h1']
+/-- what the specification puts for a well-formed reference `name` -/
+def specSub (caps : List Bytes) (name : Bytes) : Bytes :=
+  match rxNum name with
+  | some n => if n ≥ 1 then caps.getD (n - 1) [] else []
+  | none => []
 
+theorem expandSpec_nil (caps : List Bytes) (fuel : Nat) : expandSpec caps fuel [] = some [] := by
+  cases fuel <;> rfl
 
-/-! ### putting it together -/
+theorem expandSpec_cons_plain (caps : List Bytes) (fuel : Nat) (b : UInt8) (rest : Bytes)
+    (hb : (b == cDollar) = false) :
+    expandSpec caps (fuel + 1) (b :: rest) = (expandSpec caps fuel rest).map (b :: ·) := by
+  simp only [expandSpec, hb, Bool.false_eq_true, if_false]
 
-theorem glob_format_segs (segs : List Seg) (caps : List Bytes) (n : Nat) (hs : SafeSegs segs = true)
-    (hc : caps.length ≤ n) :
-    (compileTemplate (flatSegs segs) n).format caps =
-      some (expandSpec caps (flatSegs segs).length (flatSegs segs)) := by
-  unfold SafeSegs at hs
-  simp only [Bool.and_eq_true] at hs
-  obtain ⟨hok0, hfo⟩ := hs
-  have hok : ∀ s ∈ segs, segOk s = true := List.all_eq_true.mp hok0
-  rw [expandSpec_flat caps segs _ hok hfo (Nat.le_refl _), ← expected_eq_specOut n caps hc segs hok]
-  unfold compileTemplate
-  rw [findRefs_flat segs _ hok hfo (Nat.le_refl _)]
-  simp only
-  split
-  · -- no reference at all: the template is returned unchanged
-    rename_i hemp
-    have h0 : refsOf segs = [] := by simpa using hemp
-    simp only [Formatter.format, if_true]
-    rw [expected_no_refs n caps segs h0]
-  · -- at least one reference (usable or not): `Sprintf` on the escaped, substituted template
-    rw [substRefs_flat n segs _ hok hfo (Nat.le_refl _)]
-    simp only [Formatter.format, Bool.false_eq_true, if_false]
-    rw [args_eq]
-    exact sprintf_fmtOf n caps segs
+theorem expandSpec_dollar_end (caps : List Bytes) (fuel : Nat) :
+    expandSpec caps (fuel + 1) [cDollar] = some [cDollar] := by
+  have h0 : (cDollar == cDollar) = true := by decide
+  simp only [expandSpec, h0, if_true]
 
-/-! ### E. totality: the format string never leaves the modelled `Sprintf` fragment -/
+theorem expandSpec_dollar_dollar (caps : List Bytes) (fuel : Nat) (r : Bytes) :
+    expandSpec caps (fuel + 1) (cDollar :: cDollar :: r) = (expandSpec caps fuel r).map (cDollar :: ·) := by
+  have h0 : (cDollar == cDollar) = true := by decide
+  simp only [expandSpec, h0, if_true]
 
-/-- `%` occurs only in pairs `%%` (`pend`: an odd `%` has just been read) -/
-def pctPaired : Bool → Bytes → Bool
-  | pend, [] => !pend
-  | false, b :: r => if b == cPct then pctPaired true r else pctPaired false r
-  | true, b :: r => b == cPct && pctPaired false r
+theorem expandSpec_dollar_none (caps : List Bytes) (fuel : Nat) (c : UInt8) (X : Bytes)
+    (hc : (c == cDollar) = false) (hx : rxExtractU (c :: X) = none) :
+    expandSpec caps (fuel + 1) (cDollar :: c :: X) = none := by
+  have h0 : (cDollar == cDollar) = true := by decide
+  simp only [expandSpec, h0, hc, hx, if_true, Bool.false_eq_true, if_false]
 
-/-- every `%` is the head of `%%` or `%s` -/
-def fmtOk : Bool → Bytes → Bool
-  | pend, [] => !pend
-  | false, b :: r => if b == cPct then fmtOk true r else fmtOk false r
-  | true, b :: r => (b == cPct || b == 115) && fmtOk false r
+theorem expandSpec_dollar_malformed (caps : List Bytes) (fuel : Nat) (c : UInt8) (X : Bytes)
+    (hc : (c == cDollar) = false) (hx : rxExtractU (c :: X) = some none) :
+    expandSpec caps (fuel + 1) (cDollar :: c :: X) = (expandSpec caps fuel (c :: X)).map (cDollar :: ·) := by
+  have h0 : (cDollar == cDollar) = true := by decide
+  simp only [expandSpec, h0, hc, hx, if_true, Bool.false_eq_true, if_false]
 
-theorem pctPaired_fmtOk : ∀ (s : Bytes) (pend : Bool), pctPaired pend s = true → fmtOk pend s = true := by
-  intro s
-  induction s with
-  | nil => intro pend h; cases pend <;> simp [pctPaired, fmtOk] at h ⊢
-  | cons b r ih =>
-    intro pend h
-    cases pend with
-    | false =>
-      simp only [pctPaired] at h
-      simp only [fmtOk]
-      split <;> rename_i hb
-      · simp only [hb, if_true] at h; exact ih _ h
-      · simp only [hb] at h; exact ih _ h
-    | true =>
-      simp only [pctPaired, Bool.and_eq_true] at h
-      simp only [fmtOk, Bool.and_eq_true, Bool.or_eq_true]
-      exact ⟨Or.inl h.1, ih _ h.2⟩
+theorem expandSpec_dollar_name (caps : List Bytes) (fuel : Nat) (c : UInt8) (X name r : Bytes)
+    (hc : (c == cDollar) = false) (hx : rxExtractU (c :: X) = some (some (name, r))) :
+    expandSpec caps (fuel + 1) (cDollar :: c :: X) = (expandSpec caps fuel r).map (specSub caps name ++ ·) := by
+  have h0 : (cDollar == cDollar) = true := by decide
+  simp only [expandSpec, h0, hc, hx, if_true, Bool.false_eq_true, if_false, specSub]
+  cases rxNum name <;> rfl
 
-theorem pctPaired_escapePct (s : Bytes) : pctPaired false (escapePct s) = true := by
-  induction s with
-  | nil => rfl
-  | cons b s ih =>
-    by_cases hb : (b == cPct) = true
-    · have hbe : b = cPct := by simpa using hb
-      subst hbe
-      rw [escapePct_cons_pct]
-      simpa [pctPaired] using ih
-    · have hb' : (b == cPct) = false := by simpa using hb
-      rw [escapePct_cons_plain b s hb']
-      simpa [pctPaired, hb'] using ih
+/-! ### the invariant of the parallel scan -/
 
-/-- skipping text without `%` -/
-theorem pctPaired_plain : ∀ (m r : Bytes), cPct ∉ m → pctPaired false (m ++ r) = pctPaired false r := by
-  intro m
-  induction m with
-  | nil => intro r _; rfl
-  | cons b m ih =>
-    intro r h
-    simp only [List.mem_cons, not_or] at h
-    have hb : (b == cPct) = false := by
-      cases hbb : (b == cPct) with
-      | false => rfl
-      | true => exfalso; apply h.1; simp at hbb; exact hbb.symm
-    simp only [List.cons_append, pctPaired, hb, Bool.false_eq_true, if_false]
-    exact ih r h.2
+/-- `x` = the formatter's scan of (the escaped) `t`, `y` = the specification's result on `t`: both are
+    outside the modelled fragment, or both inside, and then `Sprintf` on the format string with the
+    captures selected by the indexes gives the specified bytes — and if the scan saw no reference and no
+    `$$`, the specified bytes are `t` itself. -/
+def Agrees (caps : List Bytes) (t : Bytes) (x : Option (Bytes × List Nat × Bool)) (y : Option Bytes) : Prop :=
+  match x, y with
+  | none, none => True
+  | some o, some out => sprintfS o.1 (o.2.1.map fun i => caps.getD i []) = some out ∧ (o.2.2 = false → out = t)
+  | _, _ => False
 
-/-- the pass keeps the invariant, for EVERY input in which `%` is paired and every fuel: bytes are
-    copied, references (which contain no `%`) are dropped or replaced by `%s` -/
-theorem substRefs_fmtOk (n : Nat) : ∀ (fuel : Nat) (s : Bytes) (pend : Bool), pctPaired pend s = true →
-    fmtOk pend (substRefs n fuel s).1 = true := by
-  intro fuel
-  induction fuel with
-  | zero => intro s pend h; simpa [substRefs] using pctPaired_fmtOk s pend h
-  | succ fuel ih =>
-    intro s pend h
-    cases s with
-    | nil => simpa [substRefs] using pctPaired_fmtOk [] pend h
-    | cons b rest =>
-      cases pend with
-      | true =>
-        simp only [pctPaired, Bool.and_eq_true] at h
-        have hbe : b = cPct := by simpa using h.1
-        subst hbe
-        have hd : (cPct == cDollar) = false := by decide
-        simp only [substRefs, hd, Bool.false_eq_true, if_false, fmtOk, beq_self_eq_true, Bool.true_or, Bool.true_and]
-        exact ih rest false h.2
-      | false =>
-        by_cases hd : (b == cDollar) = true
-        · have hbe : b = cDollar := by simpa using hd
-          subst hbe
-          have hp : (cDollar == cPct) = false := by decide
-          simp only [pctPaired, hp, Bool.false_eq_true, if_false] at h
-          simp only [substRefs, beq_self_eq_true, if_true]
-          cases hm : refMatchAt rest with
-          | none =>
-            simp only [fmtOk, hp, Bool.false_eq_true, if_false]
-            exact ih rest false h
-          | some x =>
-            obtain ⟨m, g, r⟩ := x
-            obtain ⟨hsp, hpm⟩ := refMatchAt_split rest m g r hm
-            rw [hsp, pctPaired_plain m r hpm] at h
-            have hr := ih r false h
-            simp only
-            cases atoiDigits g with
-            | none => exact hr
-            | some idx =>
-              simp only
-              split
-              · exact hr
-              · simpa [fmtOk] using hr
-        · have hd' : (b == cDollar) = false := by simpa using hd
-          simp only [substRefs, hd', Bool.false_eq_true, if_false]
-          by_cases hp : (b == cPct) = true
-          · simp only [pctPaired, hp, if_true] at h
-            simp only [fmtOk, hp, if_true]
-            exact ih rest true h
-          · have hp' : (b == cPct) = false := by simpa using hp
-            simp only [pctPaired, hp', Bool.false_eq_true, if_false] at h
-            simp only [fmtOk, hp', Bool.false_eq_true, if_false]
-            exact ih rest false h
+theorem agrees_plain (caps : List Bytes) (b : UInt8) (hb : (b == cPct) = false) (t : Bytes)
+    (x : Option (Bytes × List Nat × Bool)) (y : Option Bytes) (h : Agrees caps t x y) :
+    Agrees caps (b :: t) (x.map fun o => (b :: o.1, o.2.1, o.2.2)) (y.map (b :: ·)) := by
+  cases x with
+  | none => cases y with
+    | none => trivial
+    | some out => exact h.elim
+  | some o => cases y with
+    | none => exact h.elim
+    | some out =>
+      obtain ⟨h1, h2⟩ := h
+      refine ⟨?_, fun hf => ?_⟩
+      · show sprintfS (b :: o.1) _ = _
+        rw [sprintfS_cons_plain _ _ _ hb, h1]; rfl
+      · show b :: out = b :: t
+        rw [h2 hf]
 
-/-- on such a format string the modelled `Sprintf` is defined, with any number of arguments (too few:
-    `%!s(MISSING)`, too many: `%!(EXTRA …)`, both inside the model) -/
-theorem sprintfS_isSome_of_fmtOk : ∀ (k : Nat) (f : Bytes) (args : List Bytes), f.length ≤ k → fmtOk false f = true →
-    (sprintfS f args).isSome = true := by
-  intro k
-  induction k with
+theorem agrees_pct (caps : List Bytes) (t : Bytes)
+    (x : Option (Bytes × List Nat × Bool)) (y : Option Bytes) (h : Agrees caps t x y) :
+    Agrees caps (cPct :: t)
+      ((x.map fun o => (cPct :: o.1, o.2.1, o.2.2)).map fun o => (cPct :: o.1, o.2.1, o.2.2))
+      (y.map (cPct :: ·)) := by
+  cases x with
+  | none => cases y with
+    | none => trivial
+    | some out => exact h.elim
+  | some o => cases y with
+    | none => exact h.elim
+    | some out =>
+      obtain ⟨h1, h2⟩ := h
+      refine ⟨?_, fun hf => ?_⟩
+      · show sprintfS (cPct :: cPct :: o.1) _ = _
+        rw [sprintfS_pct_pct, h1]; rfl
+      · show cPct :: out = cPct :: t
+        rw [h2 hf]
+
+theorem agrees_dollar_dollar (caps : List Bytes) (t t' : Bytes)
+    (x : Option (Bytes × List Nat × Bool)) (y : Option Bytes) (h : Agrees caps t x y) :
+    Agrees caps t' (x.map fun o => (cDollar :: o.1, o.2.1, true)) (y.map (cDollar :: ·)) := by
+  cases x with
+  | none => cases y with
+    | none => trivial
+    | some out => exact h.elim
+  | some o => cases y with
+    | none => exact h.elim
+    | some out =>
+      obtain ⟨h1, _⟩ := h
+      refine ⟨?_, fun hf => by cases hf⟩
+      show sprintfS (cDollar :: o.1) _ = _
+      rw [sprintfS_cons_plain _ _ _ (by decide), h1]; rfl
+
+/-- a well-formed reference: `%s` and the capture's index on the formatter's side, the capture on the
+    specification's; nothing on either side for `$0`, an index beyond the rule's captures (`hrel`) or a
+    name that is no number -/
+theorem agrees_ref (n : Nat) (caps caps' : List Bytes)
+    (hrel : ∀ i, caps'.getD i [] = if i < n then caps.getD i [] else [])
+    (name t t' : Bytes) (x : Option (Bytes × List Nat × Bool)) (y : Option Bytes) (h : Agrees caps t x y) :
+    Agrees caps t' (x.map (refStep n name)) (y.map (specSub caps' name ++ ·)) := by
+  cases x with
+  | none => cases y with
+    | none => trivial
+    | some out => exact h.elim
+  | some o => cases y with
+    | none => exact h.elim
+    | some out =>
+      obtain ⟨h1, _⟩ := h
+      show Agrees caps t' (some (refStep n name o)) (some (specSub caps' name ++ out))
+      unfold refStep specSub
+      cases rxNum name with
+      | none => exact ⟨h1, fun hf => by cases hf⟩
+      | some idx =>
+        simp only
+        by_cases hbad : idx > n ∨ idx < 1
+        · have hb : (decide (idx > n) || decide (idx < 1)) = true := by simpa using hbad
+          simp only [hb, if_true]
+          refine ⟨?_, fun hf => by cases hf⟩
+          have : (if idx ≥ 1 then caps'.getD (idx - 1) [] else []) = [] := by
+            by_cases h1' : idx ≥ 1
+            · have : ¬ idx - 1 < n := by omega
+              simp only [h1', if_true, hrel, this, if_false]
+            · simp only [h1', if_false]
+          rw [this]; exact h1
+        · have hb : (decide (idx > n) || decide (idx < 1)) = false := by
+            simpa using hbad
+          have hge : idx ≥ 1 := by omega
+          have hlt : idx - 1 < n := by omega
+          simp only [hb, Bool.false_eq_true, if_false, hge, if_true, hrel, hlt]
+          refine ⟨?_, fun hf => by cases hf⟩
+          show sprintfS (cPct :: 115 :: o.1) (caps.getD (idx - 1) [] :: _) = _
+          rw [sprintfS_pct_s, h1]; rfl
+
+/-! ### the parallel induction -/
+
+/-- **Formatter scan + `Sprintf` = specification**, for arbitrary sufficient fuels: `caps` are the
+    captures handed to `Format`, `caps'` the captures of the specification; `caps'` must be `caps` on
+    the first `n` positions and empty beyond. -/
+theorem substRefs_agrees (n : Nat) (caps caps' : List Bytes)
+    (hrel : ∀ i, caps'.getD i [] = if i < n then caps.getD i [] else []) :
+    ∀ (fuel' : Nat) (t : Bytes) (fuel : Nat), t.length ≤ fuel' → (escapePct t).length ≤ fuel →
+      Agrees caps t (substRefs n fuel (escapePct t)) (expandSpec caps' fuel' t) := by
+  have hnil : ∀ fuel fuel', Agrees caps [] (substRefs n fuel (escapePct [])) (expandSpec caps' fuel' []) := by
+    intro fuel fuel'
+    rw [escapePct_nil, substRefs_nil, expandSpec_nil]
+    exact ⟨rfl, fun _ => rfl⟩
+  intro fuel'
+  induction fuel' with
   | zero =>
-    intro f args hk _
-    have : f = [] := by cases f <;> simp_all
+    intro t fuel hl _
+    have : t = [] := List.eq_nil_of_length_eq_zero (Nat.le_zero.mp hl)
     subst this
-    cases args <;> simp [sprintfS]
-  | succ k ih =>
-    intro f args hk h
-    cases f with
-    | nil => cases args <;> simp [sprintfS]
+    exact hnil _ _
+  | succ fuel' ih =>
+    intro t fuel hl hf
+    cases t with
+    | nil => exact hnil _ _
     | cons b rest =>
-      simp only [List.length_cons] at hk
-      by_cases hp : (b == cPct) = true
-      · simp only [fmtOk, hp, if_true] at h
-        cases rest with
-        | nil => simp [fmtOk] at h
-        | cons c rest' =>
-          simp only [fmtOk, Bool.and_eq_true, Bool.or_eq_true] at h
-          simp only [List.length_cons] at hk
-          have hbe : b = cPct := by simpa using hp
-          subst hbe
-          by_cases hc : (c == 115) = true
-          · have hce : c = 115 := by simpa using hc
-            subst hce
-            cases args with
-            | nil =>
-              rw [sprintfS.eq_def]
-              have := ih rest' [] (by omega) h.2
-              simp only [beq_self_eq_true, if_true, Option.isSome_map]
-              exact this
-            | cons a as =>
-              rw [sprintfS_pct_s, Option.isSome_map]
-              exact ih rest' as (by omega) h.2
-          · have hc' : (c == 115) = false := by simpa using hc
-            have hce : c = cPct := by
-              rcases h.1 with h1 | h1
-              · simpa using h1
-              · rw [h1] at hc'; cases hc'
-            subst hce
-            rw [sprintfS_pct_pct, Option.isSome_map]
-            exact ih rest' args (by omega) h.2
-      · have hp' : (b == cPct) = false := by simpa using hp
-        simp only [fmtOk, hp', Bool.false_eq_true, if_false] at h
-        rw [sprintfS_cons_plain b rest args hp', Option.isSome_map]
-        exact ih rest args (by omega) h
+      have hl' : rest.length ≤ fuel' := by simpa using hl
+      by_cases hb : (b == cDollar) = true
+      · have hbe : b = cDollar := by simpa using hb
+        subst hbe
+        have hesc : escapePct (cDollar :: rest) = cDollar :: escapePct rest :=
+          escapePct_cons_plain _ _ (by decide)
+        rw [hesc] at hf ⊢
+        cases fuel with
+        | zero => simp at hf
+        | succ fuel =>
+          have hf' : (escapePct rest).length ≤ fuel := by simpa using hf
+          cases rest with
+          | nil =>
+            rw [escapePct_nil, substRefs_dollar_end, expandSpec_dollar_end]
+            exact ⟨show sprintfS [cDollar] [] = some [cDollar] by decide, fun _ => rfl⟩
+          | cons c rest' =>
+            by_cases hc : (c == cDollar) = true
+            · have hce : c = cDollar := by simpa using hc
+              subst hce
+              have hesc2 : escapePct (cDollar :: rest') = cDollar :: escapePct rest' :=
+                escapePct_cons_plain _ _ (by decide)
+              rw [hesc2] at hf' ⊢
+              rw [substRefs_dollar_dollar, expandSpec_dollar_dollar]
+              apply agrees_dollar_dollar caps rest'
+              apply ih
+              · simp only [List.length_cons] at hl'; omega
+              · simp only [List.length_cons] at hf'; omega
+            · have hc' : (c == cDollar) = false := by simpa using hc
+              -- the escaped rest starts with a byte that is not `$` either
+              obtain ⟨c', X, hcX, hc'X⟩ : ∃ c' X, escapePct (c :: rest') = c' :: X ∧ (c' == cDollar) = false := by
+                rcases escapePct_cons_cases c rest' with ⟨rfl, h⟩ | ⟨_, h⟩
+                · exact ⟨_, _, h, by decide⟩
+                · exact ⟨_, _, h, hc'⟩
+              have hxe := rxExtractU_escapePct (c :: rest')
+              rw [hcX] at hxe hf' ⊢
+              cases hx : rxExtractU (c :: rest') with
+              | none =>
+                rw [hx] at hxe
+                rw [substRefs_dollar_none _ _ _ _ hc'X hxe, expandSpec_dollar_none _ _ _ _ hc' hx]
+                trivial
+              | some o =>
+                cases o with
+                | none =>
+                  rw [hx] at hxe
+                  rw [substRefs_dollar_malformed _ _ _ _ hc'X hxe, expandSpec_dollar_malformed _ _ _ _ hc' hx]
+                  apply agrees_plain caps cDollar (by decide)
+                  rw [← hcX]
+                  apply ih _ _ hl'
+                  rw [hcX]; exact hf'
+                | some nr =>
+                  obtain ⟨name, r⟩ := nr
+                  rw [hx] at hxe
+                  rw [substRefs_dollar_name _ _ _ _ _ _ hc'X hxe, expandSpec_dollar_name _ _ _ _ _ _ hc' hx]
+                  apply agrees_ref n caps caps' hrel name r
+                  obtain ⟨_, pre, hpre⟩ := rxExtractU_some _ _ _ hx
+                  apply ih
+                  · have := congrArg List.length hpre
+                    simp only [List.length_append] at this
+                    omega
+                  · have := congrArg (fun l => (escapePct l).length) hpre
+                    simp only [escapePct_append, List.length_append, hcX] at this
+                    omega
+      · have hb' : (b == cDollar) = false := by simpa using hb
+        rcases escapePct_cons_cases b rest with ⟨rfl, h⟩ | ⟨hp, h⟩
+        · rw [h] at hf ⊢
+          cases fuel with
+          | zero => simp at hf
+          | succ fuel =>
+            cases fuel with
+            | zero => simp at hf
+            | succ fuel =>
+              rw [substRefs_cons_plain _ _ _ _ hb', substRefs_cons_plain _ _ _ _ hb',
+                expandSpec_cons_plain _ _ _ _ hb']
+              apply agrees_pct
+              apply ih _ _ hl'
+              simp only [List.length_cons] at hf; omega
+        · rw [h] at hf ⊢
+          cases fuel with
+          | zero => simp at hf
+          | succ fuel =>
+            rw [substRefs_cons_plain _ _ _ _ hb', expandSpec_cons_plain _ _ _ _ hb']
+            apply agrees_plain caps b hp
+            apply ih _ _ hl'
+            simpa using hf
 
-/-- **`Format` is total**: for every template, every capture count and every capture list the result is
-    inside the modelled `Sprintf` fragment -/
-theorem compileTemplate_format_isSome (tmpl : Bytes) (n : Nat) (caps : List Bytes) :
-    ((compileTemplate tmpl n).format caps).isSome = true := by
+/-! ### `NewTemplateFormatter` / `Format` -/
+
+/-- **The formatter is the specification**, for every template, capture count and capture list, when the
+    specification's captures `caps'` are `caps` on the first `n` positions and empty beyond. -/
+theorem compileTemplate_format (tmpl : Bytes) (n : Nat) (caps caps' : List Bytes)
+    (hrel : ∀ i, caps'.getD i [] = if i < n then caps.getD i [] else []) :
+    (compileTemplate tmpl n).format caps = expandSpec caps' tmpl.length tmpl := by
+  have h := substRefs_agrees n caps caps' hrel tmpl.length tmpl (escapePct tmpl).length
+    (Nat.le_refl _) (Nat.le_refl _)
   unfold compileTemplate
   simp only
-  split
-  · rfl
-  · simp only [Formatter.format, Bool.false_eq_true, if_false]
-    exact sprintfS_isSome_of_fmtOk _ _ _ (Nat.le_refl _)
-      (substRefs_fmtOk n _ _ false (pctPaired_escapePct tmpl))
+  cases hs : substRefs n (escapePct tmpl).length (escapePct tmpl) with
+  | none =>
+    rw [hs] at h
+    cases hy : expandSpec caps' tmpl.length tmpl with
+    | none => rfl
+    | some out => rw [hy] at h; exact h.elim
+  | some o =>
+    rw [hs] at h
+    obtain ⟨f, idxs, fl⟩ := o
+    cases hy : expandSpec caps' tmpl.length tmpl with
+    | none => rw [hy] at h; exact h.elim
+    | some out =>
+      rw [hy] at h
+      obtain ⟨h1, h2⟩ := h
+      cases fl with
+      | true => simpa [Formatter.format] using h1
+      | false => simp [Formatter.format, h2 rfl]
+
+theorem take_getD (n : Nat) (caps : List Bytes) (i : Nat) :
+    (caps.take n).getD i [] = if i < n then caps.getD i [] else [] := by
+  rw [List.getD_eq_getElem?_getD, List.getD_eq_getElem?_getD, List.getElem?_take]
+  split <;> rfl
+
+/-- unconditionally: the formatter computes the documented expansion with the first `n` captures -/
+theorem compileTemplate_format_take (tmpl : Bytes) (n : Nat) (caps : List Bytes) :
+    (compileTemplate tmpl n).format caps = expandSpec (caps.take n) tmpl.length tmpl :=
+  compileTemplate_format tmpl n caps _ (take_getD n caps)
+
+/-- `unmodelled` is the only way `Format` answers `none`: the format string never leaves the modelled
+    `Sprintf` fragment -/
+theorem compileTemplate_format_isSome (tmpl : Bytes) (n : Nat) (caps : List Bytes) :
+    ((compileTemplate tmpl n).format caps).isSome = true ↔ (compileTemplate tmpl n).unmodelled = false := by
+  have h := substRefs_agrees n caps _ (take_getD n caps) tmpl.length tmpl (escapePct tmpl).length
+    (Nat.le_refl _) (Nat.le_refl _)
+  unfold compileTemplate
+  simp only
+  cases hs : substRefs n (escapePct tmpl).length (escapePct tmpl) with
+  | none => simp [Formatter.format]
+  | some o =>
+    rw [hs] at h
+    obtain ⟨f, idxs, fl⟩ := o
+    cases hy : expandSpec (caps.take n) tmpl.length tmpl with
+    | none => rw [hy] at h; exact h.elim
+    | some out =>
+      rw [hy] at h
+      obtain ⟨h1, _⟩ := h
+      cases fl with
+      | true =>
+        have h1' : sprintfS f (idxs.map fun i => caps.getD i []) = some out := h1
+        simp only [Formatter.format, Bool.false_eq_true, if_false, if_true, h1', Option.isSome_some]
+      | false => simp [Formatter.format]
 
 end SE
